@@ -7,24 +7,27 @@ CpusThorough == UNION { { CpuDec(m) : m \in 10..10000 }, { CpuDec3(m) : m \in 10
 \* ---- thorough ----
 ThoroughSlices == <<
   Sl(<<"web">>, <<"large">>, <<"east", "west">>, [s \in {"web"} |-> AllBodies], [s \in {"web"} |-> AllKinds],
-     {1, 2, 50}, [c \in {"large"} |-> {QLarge, QOdd}]),
+     {1, 2, 50}, [c \in {"large"} |-> "QLargeOdd"]),
   Sl(<<"api", "web">>, <<"large", "small">>, <<"east">>,
      [s \in {"api", "web"} |-> AllBodies],
      [s \in {"api", "web"} |-> AllKinds \ {"bareonly", "barehosts", "udp80", "as8080", "svcglobal"}],
-     {2}, [c \in {"large", "small"} |-> IF c = "large" THEN {QLarge} ELSE {QSmall}]),
+     {2}, [c \in {"large", "small"} |-> IF c = "large" THEN "QLarge" ELSE "QSmall"]),
   Sl(<<"api", "web">>, <<"large", "small">>, <<"east", "west">>,
      [s \in {"api", "web"} |-> IF s = "web" THEN AllBodies ELSE NoneAll],
      [s \in {"api", "web"} |-> IF s = "web" THEN {"none", "http", "two", "fan", "mix"} ELSE {"none", "httphosts", "local", "udp", "rev"}],
-     {1, 25}, [c \in {"large", "small"} |-> IF c = "large" THEN {QLarge} ELSE {QOdd}]),
+     {1, 25}, [c \in {"large", "small"} |-> IF c = "large" THEN "QLarge" ELSE "QOdd"]),
   \* three services, three placements
   Sl(<<"api", "db", "web">>, <<"large", "small">>, <<"east", "north", "west">>,
      [s \in {"api", "db", "web"} |-> IF s = "db" THEN NoneAll ELSE {{"command", "args", "env"}}],
      [s \in {"api", "db", "web"} |-> IF s = "web" THEN {"two"} ELSE IF s = "db" THEN {"local", "none"} ELSE {"udp"}],
-     {1}, [c \in {"large", "small"} |-> IF c = "large" THEN {QLarge} ELSE {QSmall}]),
-  UnitsSlice(CpusThorough,
-             UNION {MemForms, DecForms("G", 0..17), DecForms("M", 1..2000), DecForms("k", 1040..2040)},
-             UNION {StorageForms, DecForms("G", 0..1100), DecForms("M", 4..2000), DecForms("T", {0, 1})}) >>
+     {1}, [c \in {"large", "small"} |-> IF c = "large" THEN "QLarge" ELSE "QSmall"]),
+  UnitsSlice >>
 
+
+\* the unit universe of this tier (built on use: see Sdl!QuantsOf)
+TierQuants(tag) == IF tag = "units" THEN QuantsVarying(CpusThorough,
+             UNION {MemForms, DecForms("G", 0..17), DecForms("M", 1..2000), DecForms("k", 1040..2040)},
+             UNION {StorageForms, DecForms("G", 0..1100), DecForms("M", 4..2000), DecForms("T", {0, 1})}) ELSE BaseQuants(tag)
 
 ASSUME ExportDocs(Slices)
 =============================================================================
